@@ -336,7 +336,7 @@ func main() {
 			if t == "thorough" {
 				return 60000
 			}
-			return 2500
+			return 6000
 		},
 		Floor: func(t string) int {
 			if t == "thorough" {
